@@ -40,6 +40,8 @@ struct central_listener
     virtual void on_accepted( const tx_item&, unsigned /* event */, std::uint64_t /* t */ ) {}
     // ground truth the central itself can not know: the PDU reached the peripheral's link layer buffer
     virtual void on_heard( const tx_item&, unsigned /* event */ ) {}
+    // every PDU (also a retransmission) that was written into the link layer's receive buffer
+    virtual void on_stored( const tx_item& ) {}
     virtual void on_peripheral_pdu( const pdu_record& ) {}
     virtual void on_connect_ind( unsigned /* conn */, std::uint64_t /* t */ ) {}
     virtual void on_back_to_advertising( unsigned /* conn */, std::uint64_t /* t */ ) {}
@@ -311,6 +313,9 @@ public:
 
     void peripheral_heard( bool stored ) override
     {
+        if ( stored && have_inflight_ && listener )
+            listener->on_stored( inflight_ );
+
         if ( stored && have_inflight_ && inflight_.id != 0 && inflight_.id != last_heard_id_ )
         {
             last_heard_id_ = inflight_.id;
